@@ -738,7 +738,10 @@ impl<'p> Model<'p> {
         let prog: &'p Program = self.prog;
         let s = &prog.lines[at.line].stmts[at.stmt];
         self.cur_line = Some(self.line_no(at));
-        self.stmts_executed += 1;
+        if !matches!(s, Stmt::Empty) {
+            // an empty statement has no token of its own: it is not a statement the host sees
+            self.stmts_executed += 1;
+        }
         let resume = self.after(at);
         let mut reply = None;
         let flow = self.exec(s, at, resume, &mut reply);
